@@ -23,6 +23,7 @@ Logged ==
   /\ canon' = Ev.st.canon
   /\ hb' = Ev.st.hb /\ hh' = Ev.st.hh /\ hs' = Ev.st.hs
   /\ txl' = Ev.st.txl /\ tail' = Ev.st.tail
+  /\ ProjState'.clogs = Ev.st.clogs
   /\ cache' = Ev.st.resolve
   /\ ProjState'.dresolve = Ev.st.dresolve
   /\ ProjState'.rresolve = Ev.st.rresolve
